@@ -599,6 +599,7 @@ func (fr *frame) doReturn(st *State, vals []*Value, stmt *ast.ReturnStmt) []Outc
 	if st.dead {
 		return []Outcome{{st: st, ctl: cDead}}
 	}
+	st.results = vals // deferred literals run inline and must not clobber the returned values
 	if len(fr.resVars) > 0 {
 		var rs []*Value
 		for _, o := range fr.resVars {
